@@ -116,6 +116,9 @@ func VerifHarness_C13_PairedAction() {
 	with.ContextBoosts = map[string]float64{word: f}
 	r0 := db.SearchUniversal(q, base)
 	r1 := db.SearchUniversal(q, with)
+	// the caller's boost map is an input: a search leaves it as it was (otherwise the next
+	// search with the same map boosts words nobody asked for)
+	verifAssert(len(with.ContextBoosts) == 1 && with.ContextBoosts[word] == f, "C13: a search does not modify the context boosts it was given")
 	verifAssert(len(r0) == len(r1), "C13: context boosts never add or remove a candidate")
 	for _, a := range r0 {
 		for _, b := range r1 {
